@@ -438,6 +438,13 @@ def parts(tier):
                 yield (("syn", nform, npts, 0, " ", True), ())
             yield (("syn", nform, 2, 3, "", True), ((("oral_formants", "formants"), FUNCS[0]),))
             yield (("syn", nform, 11, 3, "", True), ((("oral_formants", "bandwidths", "bandwidths [%d]" % nform), FUNCS[1]), (("pitch",), FUNCS[3])))
+        # values that occur more than once within one tier (13 and 25 points over the 12 values): the function is still called once per VALUE
+        # OCCURRENCE ("every value ... exactly once"), not once per distinct number
+        for npts in (13, 25):
+            for fs in (FUNCS[0], FUNCS[3]):
+                yield (("syn", 2, npts, 0, " ", True), ((("pitch",), fs),))
+                yield (("syn", 2, npts, 5, "", True), ((("oral_formants", "formants"), fs),))
+                yield (("syn", 2, npts, 5, "", True), ((("oral_formants", "bandwidths", "bandwidths [2]"), fs), (("gain",), FUNCS[1])))
         # the whole time domain far from zero (2**30 s) with a fractional start: nothing may be taken for a whole number
         for xmin in (0.25, 2.0 ** -10, 0):
             for npts in (0, 2):
